@@ -290,6 +290,11 @@ func (p *H264Packet) parseBody(payload []byte) ([]byte, error) { //nolint:cyclop
 			return nil, errShortPacket
 		}
 
+		if payload[1]&fuStartBitmask != 0 {
+			// a start fragment begins a new unit: drop what an abandoned one left behind
+			p.fuaBuffer = nil
+		}
+
 		if p.fuaBuffer == nil {
 			p.fuaBuffer = []byte{}
 		}
